@@ -236,6 +236,10 @@ class Check:
         inputs; if an *open* known finding lists that class it is a KNOWN-FINDING."""
         oc = self.open_classes()
         if cls in oc:
+            if oc[cls]["id"] not in self.known_hits:
+                with open(os.path.join(ROOT, "replays", self.pid, f"known-{cls}.json"), "w") as f:
+                    json.dump({"property": self.pid, "class": cls, "what": what, "replay": replay, "seed": self.seed}, f,
+                              indent=1, default=str)
             self.known_hits.setdefault(oc[cls]["id"], (oc[cls], what))
             return False
         # keep the first (smallest) replay per class
